@@ -28,6 +28,7 @@ CONSTANTS
     HandlerNames, \* set of northbound handler (request) names
     FailCodes,    \* gRPC codes the device may be scripted to answer transiently
     Fine,         \* store-call granularity
+    FineCtls,     \* ... of the reconciles of these controllers (the others stay one step)
     AllPaths, GoParent, TextPrefix, ElemPrefix, Rank
 
 VARIABLES
@@ -591,8 +592,9 @@ Busy(a) == a \in DOMAIN infl
 
 \* Reconcile(id) in one step
 Deliver(c, id) ==
-    /\ up /\ ~Fine
+    /\ up /\ ~(Fine /\ c \in FineCtls)
     /\ id \in q[c]
+    /\ ~Busy(ActorOf(Pack, c, id))
     /\ \E plan \in Plans(Pack, c, id) :
           LET S0 == [Pack EXCEPT !.q[c] = @ \ {id}]
               r == RunPlan(S0, plan)
@@ -612,7 +614,7 @@ Force(c, id) ==
 
 \* Fine: the reads of Reconcile(id), up to (not including) its first persisted effect
 Begin(c, id) ==
-    /\ up /\ Fine
+    /\ up /\ Fine /\ c \in FineCtls
     /\ id \in q[c]
     /\ ~Busy(ActorOf(Pack, c, id))
     /\ \E plan \in Plans(Pack, c, id) :
